@@ -40,6 +40,9 @@ type chainShape struct {
 	// sibling route, which adds one more with Route.Use).
 	// 'K' = the router caches dynamic matches; the measured chain belongs to a route registered for HEAD only (/x/{id});
 	// a GET route with two other middleware covers the same path; the history is GET, HEAD, then the measured HEAD.
+	// 'Y' = the request is sent to ANOTHER route (/fwd) whose first middleware forwards it with HandleContext to the
+	// measured route; /fwd's own main handler must not run afterwards
+	// (chains without global middleware only).
 	// 'C' = the router caches dynamic matches, the route is dynamic (/x/{id}) and the measured request is the SECOND
 	// identical one (answered from the route cache).
 	Hooks string `json:"hooks,omitempty"`
@@ -354,6 +357,16 @@ func runChain(sh chainShape, table map[byte]refmodel.Behaviour) (obs chainObs, b
 	})
 	if regPanic != nil {
 		return
+	}
+	if strings.Contains(sh.Hooks, "Y") {
+		stray := func(c *rux.Context) { log = append(log, refmodel.Event{Kind: "enter", H: 300}) }
+		target := reqPath
+		// (/fwd's chain is forwarder + main: not longer than the measured chain, see DESIGN note L5)
+		r.GET("/fwd", stray, func(c *rux.Context) {
+			c.Req.URL.Path = target
+			c.Router().HandleContext(c)
+		})
+		reqPath = "/fwd"
 	}
 	if strings.Contains(sh.Beh, "r") {
 		// the route a handler may re-dispatch to: one aborting middleware, a main handler that must never start
